@@ -36,8 +36,10 @@ ASSUMPTIONS = [
     'sampling: texts, dialects and (for longer inputs) schedules are sampled from a seeded PRNG, not enumerated',
 ]
 
-ALPHABET = ['a', '"', ',', '\n', '\r', '#', ' ', ';', 'b', 'é', '€', '\U0001F600', '﻿', '\t', '\ufffd']
-WEIGHTS = [10, 9, 8, 9, 9, 4, 3, 2, 3, 2, 2, 1, 1, 1, 1]
+# besides the property's own symbols: characters that other line-splitting conventions (str.splitlines, Unicode) treat as line
+# breaks but RBQL must not (VT, FF, FS, NEL, LS), NUL, and the replacement character
+ALPHABET = ['a', '"', ',', '\n', '\r', '#', ' ', ';', 'b', 'é', '€', '\U0001F600', '﻿', '\t', '\ufffd', '\x0b', '\x0c', '\x1c', '\x85', '\u2028', '\x00']
+WEIGHTS = [10, 9, 8, 9, 9, 4, 3, 2, 3, 2, 2, 1, 1, 1, 1, 1, 1, 1, 1, 1, 1]
 SNIPPETS = ['\r\n', '""', '"\n"', '"\r\n', '\n#', '\r#', 'a,b', '",', ',"', '\n\n', '\r\r', '"a\nb"', '#x\n', '﻿', '\r\n\r\n', '"\r"']
 ASCII_ALPHABET = ['a', '"', ',', '\n', '\r', '#', ' ']
 
